@@ -69,6 +69,12 @@ let handle (cf : cfg) (line : string) : string option =
       let o = json_run cf None (nat_of_int 50) (bytes_of_hex h) in
       let ((pv, rem), ok) = copy_budget o.j_doc (nat_of_int (int_of_string b)) in
       Some (Printf.sprintf "%s %s %d" (if ok then "true" else "false") (dump pv) (int_of_nat rem))
+  (* DSB <J|M> <slots> <hex input> : Model/CopyBudget.v read_budget — the document left by a reader that can have only that many slots *)
+  | ["DSB"; fmtc; b; h] ->
+      let doc = if fmtc = "J" then (json_run cf None (nat_of_int 50) (bytes_of_hex h)).j_doc
+                else (mp_run cf None (nat_of_int 50) (bytes_of_hex h)).mp_doc in
+      let ((pv, _), ok) = read_budget doc (nat_of_int (int_of_string b)) in
+      Some (Printf.sprintf "%s %s" (if ok then "Ok" else "NoMemory") (dump pv))
   | ["S"; fmt; d] ->
       let v = parse_dump cf d in
       let out = ser_fmt cf (int_of_string fmt) v in
